@@ -136,15 +136,16 @@ func (m *expirationMap[V]) cleanup(store store[V], policy *defaultPolicy[V], onE
 
 	for _, keys := range buckets {
 		for key, conflict := range keys {
-			expr := store.Expiration(key)
-			// Sanity check. Verify that the store agrees that this key is expired.
-			if expr.After(now) {
+			// Remove the item only if the store agrees that this key is expired.
+			// The check and the removal must be atomic, otherwise an item which
+			// gets updated with a new (or no) TTL in between would be evicted.
+			value, expr, ok := store.DelIfExpired(key, conflict, now)
+			if !ok {
 				continue
 			}
 
 			cost := policy.Cost(key)
 			policy.Del(key)
-			_, value := store.Del(key, conflict)
 
 			if onEvict != nil {
 				onEvict(&Item[V]{Key: key,
